@@ -26,20 +26,20 @@ import smt  # noqa: E402
 import sym  # noqa: E402
 
 KERNELS = {
-    "C01": ["k_index_of", "k_str_slice", "k_str_insert", "k_random", "k_unique_id"],
+    "C01": ["k_index_of", "k_str_slice", "k_str_insert", "k_random", "k_unique_id", "k_str_index_length"],
     "C06": ["k_unique_id", "k_random"],
     "C11": ["k_plus_minus_units", "k_numeric_cmp"],
-    "C12": ["k_numeric_cmp"],
+    "C12": ["k_numeric_cmp", "k_value_eq_symmetric"],
     "C14": ["k_is_true", "k_and_or", "k_binop_short_circuit", "k_not"],
-    "C26": ["k_str_slice", "k_str_insert"],
-    "C28": ["k_index_of", "k_set_nth"],
+    "C26": ["k_str_slice", "k_str_insert", "k_str_index_length"],
+    "C28": ["k_index_of", "k_set_nth", "k_append_join", "k_list_separator"],
     "C31": ["k_deg_mod"],
-    "C32": ["k_deg_mod", "k_lighten_darken", "k_fade"],
+    "C32": ["k_deg_mod", "k_lighten_darken", "k_fade", "k_complement_grayscale"],
 }
 # for C01 only the panic obligations of the kernels count
 PANIC_ONLY = {"C01"}
 
-MIR_PATH = os.path.join(CACHE, "mir", "rsass.mir")
+MIR_PATH = os.path.join(CACHE, "mir", "rsass.%d.mir" % os.getpid())  # per process: checks may run concurrently
 _engine = None
 
 
@@ -50,6 +50,10 @@ def get_engine(log):
         mir.dump(RSASS, os.path.join(CACHE, "mir", "target"), MIR_PATH)
         log("E2: MIR of the current tree dumped in %.1f s (%d bytes)" % (time.time() - t0, os.path.getsize(MIR_PATH)))
         _engine = engine.Engine(MIR_PATH, os.path.join(RSASS, "src"), log)
+        try:
+            os.unlink(MIR_PATH)  # parsed into memory; keep the cache directory small
+        except OSError:
+            pass
     return _engine
 
 
@@ -230,7 +234,17 @@ STRUCTURAL_PROBES = {
                            ("1 + 1px", "2px"), ("1px - 1", "0px"), ("2 - 1px", "1px"), ("1s - 1ms", "0.999s"), ("90deg + 1turn", "450deg")],
     "k_numeric_cmp": [("1in > 2cm", "true"), ("2cm > 1in", "false"), ("1in == 2.54cm", "true"), ("2.54cm == 1in", "true"),
                       ("1s < 1ms", "false"), ("1 < 2px", "true"), ("1px == 1", "false")],
-    "k_and_or": [("() or 1", "()"), ("null or 1", "1"), ("0 and 1", "1"), ("false and 1", "false"), ("\"\" or 2", "\"\""), ("(null,) or 3", "null")],
+    "k_value_eq_symmetric": [("() == map-remove((a: 1), a)", "true"), ("map-remove((a: 1), a) == ()", "true"), ("\"a\" == a", "true"),
+                             ("a == \"a\"", "true"), ("(1 2) == (1 2)", "true"), ("1 == 1px", "false"), ("1px == 1", "false"), ("null == false", "false")],
+    "k_complement_grayscale": [("hue(complement(hsl(10, 50%, 50%)))", "190deg"), ("saturation(grayscale(hsl(10, 50%, 40%)))", "0%"),
+                               ("lightness(grayscale(hsl(10, 50%, 40%)))", "40%"), ("hue(adjust-hue(hsl(10, 50%, 50%), 30deg))", "40deg")],
+    "k_str_index_length": [("str-index(\"abcd\", \"c\")", "3"), ("inspect(str-index(\"abcd\", \"x\"))", "null"), ("str-length(\"abcd\")", "4"),
+                           ("to-upper-case(\"ab\")", "\"AB\""), ("to-upper-case(ab)", "AB")],
+    "k_append_join": [("append(a b, c, comma)", "a, b, c"), ("append((a, b), c)", "a, b, c"), ("join(a b, (c, d))", "a b c d"), ("join((a, b), c d)", "a, b, c, d"),
+                      ("join(a, (b, c))", "a, b, c"), ("append([a], b)", "[a b]")],
+    "k_list_separator": [("list-separator((a, b))", "comma"), ("list-separator(a b)", "space"), ("list-separator(())", "space"), ("is-bracketed([a])", "true"),
+                         ("is-bracketed(a b)", "false")],
+    "k_and_or": [("inspect(() or 1)", "()"), ("null or 1", "1"), ("0 and 1", "1"), ("false and 1", "false"), ("\"\" or 2", "\"\""), ("inspect((null,) or 3)", "(null,)")],
     "k_binop_short_circuit": [("false and $undefined-variable", "false"), ("true or $undefined-variable", "true")],
     "k_is_true": [("if((), 1, 2)", "1"), ("if(unquote(\"\"), 1, 2)", "1"), ("if(0, 1, 2)", "1"), ("if(null, 1, 2)", "2")],
     "k_set_nth": [("set-nth(a b c, -3, x)", "x b c"), ("set-nth(a b c, 3, x)", "a b x"), ("set-nth((a, b), 1, x)", "x, b"), ("nth(a b c, -3)", "a")],
